@@ -533,6 +533,17 @@ class Column:
                     check_statement += f" {item}" if n > 0 else f"{item}"
             return check_statement
 
+    @staticmethod
+    def check_items_to_text(items: List) -> List[str]:
+        """an '=' comparison arrives as a dict (from id_equals): written back as text"""
+        text_items = []
+        for item in items:
+            if isinstance(item, dict) and "in_statement" not in item:
+                key, value = list(item.items())[0]
+                item = f"{key} = {value}"
+            text_items.append(item)
+        return text_items
+
     def p_check_ex(self, p: List) -> None:
         """check_ex : check_st
         | constraint check_st
@@ -541,7 +552,7 @@ class Column:
         if isinstance(p[1], dict):
             if "constraint" in p[1]:
                 if "in_statement" not in p[2]["check"][0]:
-                    statement = " ".join(p[2]["check"])
+                    statement = " ".join(self.check_items_to_text(p[2]["check"]))
                 else:
                     statement = p[2]["check"][0]
                 p[0] = {
@@ -1116,7 +1127,7 @@ class BaseSQL(
                 # CHECK (col IN (...)): same shape as under a named CONSTRAINT
                 statement = items[0]
             else:
-                statement = " ".join(items)
+                statement = " ".join(self.check_items_to_text(items))
             check = {"constraint_name": None, "statement": statement}
         else:
             check = p_list[-1]["check"]
